@@ -167,7 +167,7 @@ def correspondence(ctx):
     exe = frames.harness()
     cases = gen_cases(ctx)
     lines = [line_for(ctx.rng, c) for c in cases]
-    frs = frames.parallel(lambda ch: frames.run_lines(exe, ch, timeout=1800)[1], frames.split_chunks(lines, 16))
+    frs = frames.parallel(lambda ch: frames.run_lines_exact(exe, ch, timeout=1800), frames.split_chunks(lines, 16))
     frs += ["err missing"] * (len(lines) - len(frs))
     # directed call histories on the caller's own memory (harness/zvh_seg.c; drawn after the others: their stream is unchanged):
     # begin / continue / end over segments (tiny first / middle segments; separate heap blocks, contiguous, ring buffer, one overwritten buffer; raw and
@@ -203,7 +203,9 @@ def correspondence(ctx):
             if len(ctx.violations) >= 5:
                 break
             continue
-        if c["raw"].startswith("err"):
+        if c["raw"].startswith("err no-answer"):
+            ctx.violation("the library crashed / hung while compressing (%s): %s" % (c["raw"], c["line"][:120]), rep)
+        elif c["raw"].startswith("err"):
             if "parameter" in c["raw"]:
                 rejected += 1
                 continue
